@@ -16,7 +16,7 @@ from .store_sim import OracleFailure, StoreSim
 
 REFUSAL_KINDS = ['missing_input', 'wrong_input_suffix', 'wrong_output_suffix', 'existing_output',
                  'both_list_and_pattern', 'pattern_without_range', 'differing_fieldsets',
-                 'mixed_identification']
+                 'mixed_identification', 'duplicate_basename']
 
 
 # --------------------------------------------------------------------- helpers
@@ -153,6 +153,14 @@ def op_merge_refused(self: StoreSim, op):
         odd = self.path('odd_input.dat')
         shutil.copy2(good_paths[0], odd)
         bad_kwargs['input_stores'] = good_paths + [odd]
+    elif kind == 'duplicate_basename':
+        # two inputs from different directories with the same file name cannot both live in
+        # the merged directory: nothing may be lost (refusal is the only clean outcome)
+        sub = self.path('elsewhere')
+        os.makedirs(sub, exist_ok=True)
+        twin = os.path.join(sub, os.path.basename(good_paths[-1]))
+        shutil.copy2(good_paths[0], twin)
+        bad_kwargs['input_stores'] = good_paths + [twin]
     elif kind == 'wrong_output_suffix':
         bad_out = self.path(out.replace('.aeic-store', '.store'))
     elif kind == 'existing_output':
@@ -184,7 +192,12 @@ def op_merge_refused(self: StoreSim, op):
     except Exception as e:  # noqa: BLE001
         refused = type(e).__name__
     else:
-        self.fail('mrefuse.accepted', f'merge with {kind} was accepted', **feat)
+        detail = f'merge with {kind} was accepted'
+        if kind == 'duplicate_basename':
+            left = sorted(os.listdir(bad_out)) if os.path.isdir(bad_out) else []
+            detail += (f': {len(bad_kwargs["input_stores"])} inputs were moved into the merged directory, '
+                       f'which now holds {left} - one input overwrote another')
+        self.fail('mrefuse.accepted', detail, **feat)
     gc.collect()
     # every input still opens at its original path with its original content
     for f in good + ([extra] if extra is not None else []):
